@@ -613,12 +613,72 @@ static std::string handle_met(const std::vector<std::string> &t)
   return vh::join(outs, " ; ");
 }
 
+// `late <D|C> <n_before 0..40> <n_after 1..40>`: a reader attached to a provider that is already in use.  Reader 0 (delta) has
+// collected everything recorded so far when the late reader is attached, so the late reader must be given exactly what is recorded
+// afterwards - whatever reader 0 did before, and however many delta tables have gone by.  (The stream storage keeps one stash of
+// unreported tables per collector; a collector that appears later has to get its own.)  Oracle only: the protocol model has a
+// fixed set of readers.
+static std::string handle_late(const std::vector<std::string> &t)
+{
+  if (t.size() != 4 || (t[1] != "D" && t[1] != "C")) return "bad-op";
+  long long nb, na;
+  if (!parse_nat(t[2], nb) || !parse_nat(t[3], na) || nb > 40 || na < 1 || na > 40) return "bad-op";
+  auto provider = std::make_shared<sdkm::MeterProvider>();
+  auto r0       = std::make_shared<TestReader>('D');
+  provider->AddMetricReader(r0);
+  // a second early reader: with a single delta reader the stream storage takes its fast path and keeps no stash at all
+  auto r1 = std::make_shared<TestReader>('C');
+  provider->AddMetricReader(r1);
+  auto meter   = provider->GetMeter("m");
+  auto counter = meter->CreateUInt64Counter("late0");
+  auto sum_of  = [](const std::shared_ptr<TestReader> &r) {
+    long long total = 0;
+    r->Collect([&](sdkm::ResourceMetrics &rm) {
+      for (auto &sm : rm.scope_metric_data_)
+        for (auto &md : sm.metric_data_)
+          for (auto &pt : md.point_data_attr_)
+            if (nostd::holds_alternative<sdkm::SumPointData>(pt.point_data))
+            {
+              auto &v = nostd::get<sdkm::SumPointData>(pt.point_data).value_;
+              if (nostd::holds_alternative<int64_t>(v)) total += nostd::get<int64_t>(v);
+            }
+      return true;
+    });
+    return total;
+  };
+  long long before = 0, seen0 = 0;
+  for (long long i = 0; i < nb; i++)
+  {
+    counter->Add(static_cast<uint64_t>(i + 1));
+    before += i + 1;
+    if (i % 3 == 1) seen0 += sum_of(r0);
+  }
+  seen0 += sum_of(r0);
+  if (nb % 2 == 1) (void)sum_of(r1);
+  auto late = std::make_shared<TestReader>(t[1][0]);
+  provider->AddMetricReader(late);
+  long long after = 0;
+  for (long long i = 0; i < na; i++)
+  {
+    counter->Add(static_cast<uint64_t>(10 + i));
+    after += 10 + i;
+    if (i % 4 == 2) seen0 += sum_of(r0);   // reader 0 goes on collecting: its tables must still reach the late reader
+  }
+  long long late1 = sum_of(late);
+  counter->Add(5);
+  long long late2 = sum_of(late);
+  seen0 += sum_of(r0);
+  return "late first=" + std::to_string(late1) + " second=" + std::to_string(late2) + " r0=" + std::to_string(seen0) +
+         " before=" + std::to_string(before) + " after=" + std::to_string(after);
+}
+
 int main()
 {
   opentelemetry::sdk::common::internal_log::GlobalLogHandler::SetLogLevel(
       opentelemetry::sdk::common::internal_log::LogLevel::None);
   return vh::run_lines([](const std::vector<std::string> &t) -> std::string {
     if (t.size() >= 2 && t[0] == "met") return handle_met(t);
+    if (t[0] == "late") return handle_late(t);
     return "bad-op";
   });
 }
